@@ -18,8 +18,9 @@ EXTENDS Integers, Sequences, FiniteSets, TLC
 CONSTANTS Scenarios  \* the twin runs to monitor: records [ne, nd, lineage, held, ordered]
 
 VARIABLES sc,        \* the scenario being monitored (fixed after Init)
-          delivered, consumed, fired
-vars == <<sc, delivered, consumed, fired>>
+          delivered, consumed, fired,
+          failed     \* deliveries whose consumer raised
+vars == <<sc, delivered, consumed, fired, failed>>
 
 NE == sc.ne            \* source elements 1..NE
 ND == sc.nd            \* number of expected deliveries
@@ -27,16 +28,19 @@ Lineage == sc.lineage  \* [1..ND -> SUBSET (1..NE)]
 Held == sc.held        \* SUBSET (1..NE)
 Ordered == sc.ordered  \* the pipeline guarantees delivery order (every lossless pipeline does)
 
-Init == sc \in Scenarios /\ delivered = <<>> /\ consumed = {} /\ fired = <<>>
+Init == sc \in Scenarios /\ delivered = <<>> /\ consumed = {} /\ fired = <<>> /\ failed = {}
 
 \* the sink's update() is called with the k-th expected value (0: a value the twin never produces)
-Deliver(k) == /\ delivered' = Append(delivered, k) /\ UNCHANGED <<sc, consumed, fired>>
+Deliver(k) == /\ delivered' = Append(delivered, k) /\ UNCHANGED <<sc, consumed, fired, failed>>
 \* the sink's awaitable for that delivery finishes
-Consume(k) == /\ consumed' = consumed \cup {k} /\ UNCHANGED <<sc, delivered, fired>>
+Consume(k) == /\ consumed' = consumed \cup {k} /\ UNCHANGED <<sc, delivered, fired, failed>>
 \* the completion callback of source element e is scheduled
-Fire(e) == /\ fired' = Append(fired, e) /\ UNCHANGED <<sc, delivered, consumed>>
+Fire(e) == /\ fired' = Append(fired, e) /\ UNCHANGED <<sc, delivered, consumed, failed>>
+\* the sink's awaitable for delivery k raises (the pipeline behind it may stop working: nothing is demanded of
+\* later deliveries, but no callback may ever report the elements of k as done)
+Fail(k) == /\ failed' = failed \cup {k} /\ UNCHANGED <<sc, delivered, consumed, fired>>
 
-Next == (\E k \in 0 .. ND : Deliver(k) \/ Consume(k)) \/ (\E e \in 1 .. NE : Fire(e))
+Next == (\E k \in 0 .. ND : Deliver(k) \/ Consume(k) \/ Fail(k)) \/ (\E e \in 1 .. NE : Fire(e))
 Spec == Init /\ [][Next]_vars
 
 ----------------------------------------------------------------------------
@@ -47,10 +51,13 @@ NoDuplicate == \A i, j \in 1 .. Len(delivered) : i # j => delivered[i] # deliver
 InOrder == Ordered => \A i \in 1 .. Len(delivered) : delivered[i] = i
 \* C04: no completion callback while anything derived from the element is undelivered or still being handled
 CbSafe == \A i \in 1 .. Len(fired) : \A k \in 1 .. ND : fired[i] \in Lineage[k] => k \in consumed
+\* C04: never for an element whose processing raised
+RaisedNeverFires == \A i \in 1 .. Len(fired) : \A k \in failed \cap (1 .. ND) : fired[i] \notin Lineage[k]
 \* C05: at most once
 FiredOnce == \A i, j \in 1 .. Len(fired) : i # j => fired[i] # fired[j]
 \* at the end (checked by the trace specification): everything delivered and consumed, every element that has left
 \* the pipeline signalled, the held ones not
-Complete == /\ Range(delivered) = 1 .. ND /\ consumed = 1 .. ND
+Complete == failed # {} \/
+            /\ Range(delivered) = 1 .. ND /\ consumed = 1 .. ND
             /\ Range(fired) = (1 .. NE) \ Held
 =============================================================================
